@@ -18,6 +18,7 @@ import (
 	_ "verifsim/harness/ccallx"
 	_ "verifsim/harness/oncex"
 	_ "verifsim/harness/promisex"
+	_ "verifsim/harness/refcountx"
 	_ "verifsim/harness/routinex"
 	_ "verifsim/harness/csyncx"
 	_ "verifsim/harness/keyedx"
